@@ -186,6 +186,45 @@ def check_no_backend_ordering(ctx, progs, rule="E7.backend-order"):
     ctx.ob(rule + ".posctl", "ordering", k > 0, "positive control: the ordering detector matched %d site(s) in fixtures/posctl (must be > 0, otherwise the rule is blind)" % k)
 
 
+# textual renderings of backend values: `Display` / `Debug` of the wrappers delegate to the backend crate's own impls (affine
+# hex under one backend, raw projective coordinates under the other), so a string made of one is not a function of the
+# value alone.  Inside the `fmt` impls themselves that is what the text IS; anywhere else the text is being used as data
+# (a dedup key, a hash input, a comparison).
+_FMT_CTORS = ("new_display", "new_debug", "new_lower_hex", "new_upper_hex", "new_lower_exp", "new_upper_exp", "new_binary", "new_octal", "new_pointer")
+
+
+def text_calls(P):
+    out = []
+    for f in P.fns.values():
+        if f.from_expansion or f.name == "fmt" or (f.kind == "Closure" and "::fmt" in (f.j.get("parent_key") or "")):
+            continue
+        for bb, t in f.calls():
+            c = t.get("callee") or {}
+            if c.get("crate") not in ("core", "std", "alloc"):
+                continue
+            nm = c.get("name") or ""
+            p = c.get("path") or ""
+            if not ((nm == "to_string" and c.get("trait") == "ToString") or (nm in _FMT_CTORS and "Argument" in p) or (nm == "fmt" and c.get("trait") in ("Display", "Debug", "LowerHex", "UpperHex"))):
+                continue
+            tys = [a for a in (c.get("args") or []) + [c.get("self_ty") or ""] if a and _BACKEND_TY.search(str(a)) and not str(a).startswith(("[u8", "&[u8", "Vec<u8"))]
+            if tys:
+                out.append((f, bb, p, tys))
+    return out
+
+
+def check_no_backend_text(ctx, progs, rule="E7.backend-text"):
+    n = 0
+    for name, P in progs:
+        n += sum(1 for f in P.fns.values() for _ in f.calls())
+        for f, bb, p, tys in text_calls(P):
+            ctx.ob(rule, "%s|%s->%s" % (name, f.key, p), False, "%s build: %s renders a backend value as text outside a `fmt` impl (`%s` over %s): the backends print them differently (canonical affine form vs raw coordinates), so the text is not a function of the value" % (name, f.key, p, tys[:2]), where=where(f, bb))
+    ctx.ob(rule, "census", True, "%d call sites inspected: no to_string / format argument over scalars, points or the types that wrap them outside the `fmt` impls" % n)
+    from . import posctl as PC
+
+    k = len(text_calls(PC.fixture_program()))
+    ctx.ob(rule + ".posctl", "text", k > 0, "positive control: the rendering detector matched %d site(s) in fixtures/posctl (must be > 0, otherwise the rule is blind)" % k)
+
+
 def check_no_reflection(ctx, progs, rule="E7.reflection"):
     n = 0
     for name, P in progs:
@@ -208,6 +247,7 @@ def run(ctx):
     check_backend_surface(ctx, (("blst", Pa), ("rust", Pb)))
     check_no_reflection(ctx, (("blst", Pa), ("rust", Pb)))
     check_no_backend_ordering(ctx, (("blst", Pa), ("rust", Pb)))
+    check_no_backend_text(ctx, (("blst", Pa), ("rust", Pb)))
     ka, kb = set(Pa.fns), set(Pb.fns)
     ctx.ob("E10.bodies", "same-set", ka == kb, "bodies only in blst build: %s ; only in rust build: %s" % (sorted(ka - kb)[:5], sorted(kb - ka)[:5]))
     ndiff = 0
